@@ -47,6 +47,8 @@ def main():
             r["property"] = prop
             own = r.get("fired", {}).get(prop, {}).get("exit")
             r["own_check"] = {1: "VIOLATION", 2: "ANALYSIS-ERROR", None: "silent"}.get(own, str(own))
+            if r.get("apply") != "ok":
+                r["own_check"] = "STALE-PATCH"
             out[name] = r
             others = sorted(k for k, v in r.get("fired", {}).items() if k != prop and v["exit"] == 1)
             print("%-8s %-6s own=%-14s others=%s" % (name, prop, r["own_check"], ",".join(others)))
